@@ -441,4 +441,10 @@ theorem Dbl.lt_asymm (a b : Dbl) (h : Dbl.lt a b = true) : Dbl.lt b a = false :=
       · cases h
       · exact magLt_asymm _ _ _ _ h
 
+theorem promote_comm (a b : FKind) : promote a b = promote b a := by
+  cases a <;> cases b <;> rfl
+
+theorem promote_self (a : FKind) : promote a a = a := by
+  cases a <;> rfl
+
 end VelaVerif.Scaling
